@@ -5,6 +5,7 @@ CLAIMED = {
  "C01": "Static decision, for all inputs and all paths, of the structural necessary conditions C01.a-g: challenge comparison on every accepting path, response range checks with exactly the specified bounds on every element, data dependence of the reconstructed Z on every proof field and key element, oversized-attribute hashing agreement at all sites, disjoint disclosed/hidden index sets. Soundness of the proof system itself is not decided.",
  "C02": "Static decision of C02.a-g: exact hashed sequence of createChallenge and HashCommit (marker iff signature session, count, values in order, whole digest), ProofList.Verify length checks and one expected challenge verified against every proof, in-order error-checked concatenation of contributions, every Proof implementation compares its own C, argument roles at all createChallenge call sites, no map-ordered accumulation on challenge-feeding paths. Collision resistance of SHA-256/DER is assumed.",
  "C03": "Static decision of C03.a-d: every loop iteration of ProofList.Verify records-or-compares the secret-key response under the proof's label (label = keyshareServers[i] or the empty label), SecretKeyResponse() returns the exponent of R[0] in each implementation, key 0 can have no second response (ProofU.MUserResponses / ProofD.ADisclosed, disjoint index sets), both builders use the shared secretkey randomiser and the response is randomiser + challenge*secret as a symbolic term. That equal responses imply equal secrets (knowledge soundness) is not decided.",
+ "C04": "Static decision of C04.a-d: taint of raw attribute values to every sink in CreateProof / TimestampRequestContributions / Commit (raw only under the same disclosed index, otherwise only as randomiser + challenge*value or into the range-proof committer), every hidden index gets a response and every disclosed index its unmodified value, every hidden index gets its own fresh randomiser, the complement helper appends exactly the non-members, and the ProofD literal's fields come from their tabled sources (symbolic terms). That the produced proof verifies, and statistical hiding, are not decided.",
 }
 NA = {
  "C19": "every clause is a numerical result over unbounded integers (inverse, Legendre, CRT, square roots, four squares, modular reduction, primes in an interval); no sound static argument within this technique decides it (DESIGN.md section 4)",
